@@ -160,7 +160,18 @@ def run_case(case):
             if testp:
                 aout = max(p['a'] for p in sysd['planets'])
                 sysd['testparticles'] = [dict(a=aout * 1.8, e=0.05, inc=0.1, Omega=1.0, omega=2.0, f=3.0, m=0.0)]
-            nreal = 1 + npl + (1 if testp else 0)
+            # tracers: real test particles (N_active < N) next to a FULL variation of one of the planets: the tracers' variational
+            # particles are the derivatives of the tracer trajectories with respect to the planet's coordinate / element / mass
+            tracers = (not testp) and rr.random() < 0.3
+            if tracers:
+                aout = max(p['a'] for p in sysd['planets'])
+                ain = min(p['a'] for p in sysd['planets'])
+                sysd['testparticles'] = [dict(a=(aout * 1.8 if rr.random() < 0.5 else ain / 1.8), e=0.05, inc=0.1, Omega=1.0, omega=2.0, f=rr.uniform(0, 6), m=0.0)]
+                if rr.random() < 0.5:
+                    sysd['testparticles'].append(dict(a=aout * 2.6, e=0.1, inc=0.2, Omega=2.0, omega=1.0, f=rr.uniform(0, 6), m=0.0))
+                P = min(P, 2 * math.pi * math.sqrt(min(q_['a'] for q_ in sysd['testparticles']) ** 3 / G))
+                counters['evolution_with_tracers'] = counters.get('evolution_with_tracers', 0) + 1
+            nreal = 1 + npl + (1 if testp else 0) + (len(sysd['testparticles']) if tracers else 0)
             vi = nreal - 1 if testp else rr.randint(1, npl)
             pal = rr.random() < 0.4
             cart = rr.random() < 0.3
@@ -184,6 +195,8 @@ def run_case(case):
                 gen.add_system(sim, sysd)
                 if testp:
                     sim.N_active = nreal - 1
+                if tracers:
+                    sim.N_active = 1 + npl
                 prim = sim.particles[0].copy()
                 p = sim.particles[vi]
                 if not cart:
